@@ -31,6 +31,10 @@ Theorem C15_wf_create_rows : forall is_row by_struct own names data p c,
   (by_struct = true -> is_row = true -> nodup_names own = true) ->
   create_rows is_row by_struct own names data = Ok p -> wf (fst (finish c p)).
 Proof. exact frame_create_rows. Qed.
+(* explicit StructType with nullable=False / metadata / IntegerType fields *)
+Theorem C15_wf_create_strict : forall names strict data p c,
+  create_strict names strict data = Ok p -> wf (fst (finish c p)).
+Proof. exact frame_create_strict. Qed.
 Theorem C15_wf_range : forall a b s p c, range_frame a b s = Ok p -> wf (fst (finish c p)).
 Proof. exact frame_range. Qed.
 
